@@ -196,6 +196,40 @@ pub fn run(ctx: &mut Ctx) -> (&'static str, String, bool) {
         ctx.extra("token_level_strings", json!(ntok));
     }
 
+    // token-level exhaustive, second family: characters whose second wire byte is 0x5E - a caret to anything that looks at
+    // bytes instead of characters ("タ" 83 5E in CP932, "乛" 81 5E in GBK, "乞" A4 5E in CP950) - next to the letters and
+    // digits that would form a control code with it, real carets, and characters of the codepages a misread code names
+    {
+        const TOKENS2: [&str; 16] = ["タ", "乛", "乞", "S", "J", "H", "L", "8", "^", "^8", "^^", "们", "あ", "한", "們", "é"];
+        let maxtok = ctx.tier.pick(4usize, 5usize);
+        let mut ntok = 0u64;
+        for len in 1..=maxtok {
+            let n = (TOKENS2.len() as u64).pow(len as u32);
+            ntok += n;
+            let chunk = 5_000u64;
+            let parts: Vec<Part> = (0..n.div_ceil(chunk))
+                .into_par_iter()
+                .map(|c| {
+                    let mut p = Part::new();
+                    for i in c * chunk..((c + 1) * chunk).min(n) {
+                        let mut idx = i;
+                        let mut s = String::new();
+                        for _ in 0..len {
+                            s.push_str(TOKENS2[(idx % TOKENS2.len() as u64) as usize]);
+                            idx /= TOKENS2.len() as u64;
+                        }
+                        check_string(&s, &mut p, true);
+                    }
+                    p
+                })
+                .collect();
+            for p in parts {
+                ctx.merge(p);
+            }
+        }
+        ctx.extra("token_level_strings_trail_byte_5e", json!(ntok));
+    }
+
     // random longer strings: (a) over an encodable repertoire, (b) arbitrary Unicode (no codepage clause)
     let n = ctx.tier.pick(400_000u64, 20_000_000u64);
     let base = ctx.rng.fork(12);
